@@ -81,7 +81,7 @@ def delete_withdrawn(case):
 
 def by_name(o, drop_withdrawn=False):
     "the record projected onto candidate names"
-    nm = {c: d['name'] for c, d in o.record['cdict'].items()}
+    nm = dict(o.names)
     out = []
     for a in o.actions:
         if a['tag'] == 'log':
@@ -100,7 +100,7 @@ def by_name(o, drop_withdrawn=False):
 
 
 def final_by_name(o):
-    nm = {c: d['name'] for c, d in o.record['cdict'].items()}
+    nm = dict(o.names)
     end = o.actions[-1]['cstate']
     return {nm[c]: (s['state'], s.get('vote'), s.get('quotient')) for c, s in end.items()}
 
@@ -153,7 +153,7 @@ def check(wrapper):
                     k = next((i for i, (x, y) in enumerate(zip(ra, rb)) if x != y), min(len(ra), len(rb)))
                     res.fail('withdrawn-vs-deleted', 'withdrawn-vs-deleted|' + base, 'records differ at entry %d: %r vs %r' %
                              (k, ra[k][:3] if k < len(ra) else None, rb[k][:3] if k < len(rb) else None))
-                elif (o.record['nballots'], o.record['seats']) != (od.record['nballots'], od.record['seats']):
+                elif (o.record.get('nballots'), o.record.get('seats')) != (od.record.get('nballots'), od.record.get('seats')):
                     res.fail('withdrawn-vs-deleted', 'withdrawn-vs-deleted|header|' + base, 'nballots/seats differ')
                 wd = set(case['withdrawn'])
                 mid = any(any(c in wd for rank in r[:-1] for c in rank) or any(c in wd for rank in r for c in rank) and len(r) > 1
